@@ -104,6 +104,17 @@ pub fn run(k: &str, c: &Value) -> Value {
                 Err(_) => json!({"panic": true}),
             }
         }
+        "c10.caliper" => {
+            // the caliper chord of a section: the longest leg of the convex hull as line of tangency, the extreme points along it
+            let section = match Curve2::from_points(&p2s(&c["pts"]), fx(&c["ctol"]), true) { Ok(c) => c, Err(_) => return json!({"err_curve": true}) };
+            let camber = match Curve2::from_points(&p2s(&c["camber"]), fx(&c["ctol"]), false) { Ok(c) => c, Err(_) => return json!({"err_curve": true}) };
+            match std::panic::catch_unwind(std::panic::AssertUnwindSafe(|| engeom::airfoil::caliper_chord_line(&section, &camber))) {
+                Ok(Ok(cc)) => json!({"chord": [hp2(&cc.chord.le), hp2(&cc.chord.te)], "tangent": [hp2(&cc.tangent.le), hp2(&cc.tangent.te)],
+                                     "section": section.points().iter().map(hp2).collect::<Vec<_>>()}),
+                Ok(Err(_)) => json!({"err": true}),
+                Err(_) => json!({"panic": true}),
+            }
+        }
         "c10.orient" => {
             // airfoil/orientation.rs on synthetic stations (the section argument is not used by either implementation)
             let init: Vec<InscribedCircle> = c["init"].as_array().unwrap().iter().map(mk_circle).collect();
